@@ -69,7 +69,7 @@ pub fn is_host_item(item: &str) -> bool {
         return item.starts_with("method Tr.payload(");
     };
     let name = rest.split('(').next().unwrap_or("");
-    ["e", "eb", "mk", "val", "mkz", "eatz", "mkk", "kval"].contains(&name)
+    ["e", "eb", "es", "mk", "val", "mkz", "eatz", "mkk", "kval"].contains(&name)
         || name.starts_with("emit_")
         || name.starts_with("echo_")
         || name.starts_with("wide_")
